@@ -17,6 +17,7 @@ spec fn rely_st(&self) -> St;                    // the checker state it expects
 spec fn observes_finish() -> bool;               // does `finish` leave a trace (false for the no-op default)
 spec fn replace_is_atomic() -> bool;             // `replace` records one Replace event (overriding hooks) / Delete+Insert (default)
 spec fn accepts_replace(&self) -> bool;          // may `replace` be called (false for the Replace adapter: outside the verified envelope)
+spec fn config(&self) -> Self;                   // the part of the hook that no call changes (adapters: their configuration); framed by every call
 #[verifier::prophetic]
 spec fn fobs(&self) -> Obs<Self::Error>;         // prophecy: what the hook(s) borrowed inside this value will look like when the borrows end;
                                                  // no call re-seats such a borrow, so it never changes (lets callers resolve `&mut` hooks stored in adapters)
@@ -57,5 +58,5 @@ o.lines[k:k] = ghost('''
         res.is_ok() ==> %s.trace() == %s.trace() + (if Self::observes_finish() { seq![Ev::Finish] } else { Seq::<Ev>::empty() }),
         res.is_ok() ==> %s.rely_st() == (if Self::observes_finish() { step_rel(%s.rely_rel(), %s.rely_st(), Ev::Finish) } else { %s.rely_st() }),
 ''' % (O, O, O, FRAME, F, O, F, O, O, O), '    ')
-o.lines = [l.replace('FOBS,', '(*final(self)).fobs() == (*old(self)).fobs(),') for l in o.lines]
+o.lines = [l.replace('FOBS,', '(*final(self)).fobs() == (*old(self)).fobs(), (*final(self)).config() == (*old(self)).config(),') for l in o.lines]
 o.save()
